@@ -169,7 +169,9 @@ func c06Body(x *explore.Ctx, L int, readerIsServer, deflate bool, h1, maxFrags i
 		switch x.Choose(3, "length-form") {
 		case 1:
 			for i := range nextFrames {
-				nextFrames[i].LenForm = 16
+				if len(nextFrames[i].Payload) <= 65535 { // (a longer payload has no 16-bit form)
+					nextFrames[i].LenForm = 16
+				}
 			}
 			nonMinimal = true
 		case 2:
